@@ -30,7 +30,7 @@ BOUNDS = {
     "thorough": "strings <= 6 operands; API <= 4 operands; seeded samples (600 each) of 7-operand strings and 5-/6-operand API trees (the only sampled element)",
 }
 OUTSIDE = "larger expressions; 3-phase engines; IEEE rounding; several timestamps (C06)"
-BUDGET = {"quick": 400, "thorough": 2400}
+BUDGET = {"quick": 600, "thorough": 1500}
 
 _cache = {}
 
